@@ -23,6 +23,24 @@ Proof. vm_compute. reflexivity. Qed.
 Lemma registry_bijective_tables : registry_bijective_spec cpp_messages py_classes py_registry.
 Proof. apply registry_mismatches_sound. exact registry_tables_clean. Qed.
 
+(* ... and the same after the library has been used (the registries are not changed by library code) *)
+Lemma enum_tables_clean_after : c03_enum_mismatches_after = [].
+Proof. vm_compute. reflexivity. Qed.
+Lemma classification_tables_clean_after : c03_classification_mismatches_after = [].
+Proof. vm_compute. reflexivity. Qed.
+Lemma registry_tables_clean_after : c03_registry_mismatches_after = [].
+Proof. vm_compute. reflexivity. Qed.
+
+Lemma tables_agree_after_use :
+  enums_agree_spec enum_pairing exc_cpp_only exc_py_only exc_renamed cpp_enums py_enums_after /\
+  classification_agrees_spec cpp_classification py_classification_after py_command_messages_after py_response_messages_after /\
+  registry_bijective_spec cpp_messages py_classes_after py_registry_after.
+Proof.
+  split; [apply enums_mismatches_sound; exact enum_tables_clean_after|].
+  split; [apply classification_mismatches_sound; exact classification_tables_clean_after|].
+  apply registry_mismatches_sound; exact registry_tables_clean_after.
+Qed.
+
 (* The comparison functions are not vacuous: they flag a changed number, a missing member, a sentinel that
    hides a wire value, a classification difference and a version difference on small synthetic tables. *)
 Open Scope string_scope.
